@@ -80,6 +80,15 @@ CLAIMS = {
              "on real contexts: RuntimeError exactly where the model says with nothing changed, allowed operations succeeding during teardown "
              "(add_resource_factory excepted), re-entry refused, the closed flag after every step, the open-child error on clean exits.",
         design_ref="DESIGN.md §5 C13, §4.1", note="Trusted: TLC, the life-cycle executor (worker task per context, probe callback to hold the closing state). For a block that already ends with an exception or cancellation while a child is open, either that outcome or the stack-corruption error is accepted (the statement does not decide)."),
+    "C19": dict(
+        technique="exhaustive replay of the TLC state graph of specs/Ctx.tla with the Inject action (= the explicit lookup observed through an "
+                  "@inject-decorated function called from a task whose current context is the acted-on context); signature grammar cycled; "
+                  "differences attributed to C19 only when the real explicit lookup disagrees; decoration-time rows validated by TLC",
+        text="Every (state, inject call) pair of the bounded graphs - sync and async functions, optional and non-optional markers, both names, "
+             "static / factory-made / inherited / missing resources, open and closed contexts - is executed with signatures cycling through "
+             "keyword-only, positional, method and two-marker layouts and T, Optional[T], T | None, Union and (nested) string forward-reference "
+             "annotations; results, object identity, side effects and pass-through arguments must match the explicit lookup.",
+        design_ref="DESIGN.md §5 C19, §4.1", note="Trusted: TLC, the replay driver, the fixture module without `from __future__ import annotations`. Signature shapes are cycled, not enumerated per state."),
 }
 
 PENDING_REASON = "check not built yet in this build session; planned (DESIGN.md §5)"
